@@ -16,6 +16,8 @@ Section P.
 Variable p : prog.
 Hypothesis wfp : wf_prog p.
 Notation memob := (memob p).
+Notation dead := (dead p).
+Notation GoneSame := (GoneSame p).
 Notation effb := (effb p).
 Notation sigb := (sigb p).
 Notation WF := (WF p).
@@ -101,19 +103,23 @@ Definition EffRel (s s' : state) : Prop :=
    written signal: everything at rest is marked as by a write from outside, the running bodies
    and all they have read so far are left exactly as they were *)
 Lemma Inv_write stk t j v s :
-  Inv stk t s -> sigb j = true ->
+  Inv stk t s -> sigb j = true -> dead s j = false ->
   (forall k, In k stk -> k <> j /\ ~ dep p k j /\ L1 s k) ->
   let s' := notify_sig p j (updn j (fun n => set_sval n v) s) in
   Inv stk t s' /\ (forall k, In k stk -> getn s' k = getn s k) /\ EffRel s s'.
 Proof.
-  intros I Hsj Hstk. cbv zeta.
+  intros I Hsj Hlive Hstk. cbv zeta.
   assert (Htr : forall k, In j (tracked_of (rlog (getn s k))) -> dep p k j).
   { intros k Hk. destruct (in_dec Nat.eq_dec k stk) as [Hin|Hin].
     - destruct (Hstk k Hin) as (_&_&HL). eapply wf_dep; [apply I|]. rewrite HL. exact Hk.
     - destruct (inv_rest _ _ _ _ I k Hin) as (HL&_). eapply wf_dep; [apply I|]. rewrite HL. exact Hk. }
   assert (Hun : forall x, x <> j -> ~ dep p x j ->
                 getn (notify_sig p j (updn j (fun n => set_sval n v) s)) x = getn s x).
-  { intros x Hx1 Hx2. apply (write_sig_untouched p j v s x); auto. apply I. }
+  { intros x Hx1 Hx2. pose proof (write_sig_untouched p j v s x (inv_wf _ _ _ _ I) Htr Hx1 Hx2) as H.
+    assert (Hl0 : sgone (getn s j) = false).
+    { rewrite <- Hlive. symmetry. apply dead_src. unfold GraphInvariant.effb, GraphInvariant.sigb in *.
+      destruct (decl_of p j); congruence. }
+    unfold write_sig in H. rewrite Hl0 in H. exact H. }
   unfold notify_sig in *.
   assert (W : WF s) by apply I.
   assert (Hdj : exists tk iv, decl_of p j = DSig tk iv).
@@ -142,7 +148,8 @@ Proof.
   assert (W2 : WF s2).
   { apply (WF_same_edges p s s2); auto.
     - destruct H2m as (->&_). unfold s1. apply nlen_updn.
-    - intros k. destruct (V2 k) as (_&_&_&?&?&_). auto. }
+    - intros k. destruct (V2 k) as (_&_&_&?&?&_). auto.
+    - intros k. apply dead_view. destruct (V2 k) as (_&_&_&_&_&Hq). apply Hq. }
   assert (Q2 : QueueAll p s2).
   { unfold QueueAll. destruct H2m as (_&_&Hr2&_). apply (queue_transfer p s s2); [exact Hr2| |apply I].
     intros e. apply V2. }
@@ -182,6 +189,8 @@ Proof.
         assert (G2' : epaused (getn s1 i) = epaused (getn s i)) by (unfold s1; apply (updn_field epaused); auto).
         repeat split; congruence.
       - rewrite (mr_halted p _ _ MR). destruct H2m as (_&_&_&->&_). reflexivity. }
+  assert (Hg' : forall k, dead s' k = dead s k).
+  { intros k. apply dead_view. destruct (Hcore k) as (_&_&_&_&_&_&_&_&_&->&_). destruct (V2 k) as (_&_&_&_&_&Hq). apply Hq. }
   split.
   - eapply MarkRel_WF; eauto.
   - rewrite (mr_err p _ _ MR). destruct H2m as (_&->&_). apply I.
@@ -195,13 +204,13 @@ Proof.
       destruct R2 as [R2 R2'']. split; auto.
       intros Hc. destruct (R2 Hc) as [Hd Hr]. split; auto. apply st_le_dirty. rewrite <- Hd. exact Fle. }
     split; [|split].
-    + intros Hn x w Hx. rewrite Frk in Hx.
-      pose proof (R3 (needs_cur_mono s s' k Fca Fle Fal Ffi Fbd Hn) x w Hx) as Hcx.
+    + intros Hn x w Hx Hgx. rewrite Frk in Hx. rewrite Hg' in Hgx.
+      pose proof (R3 (needs_cur_mono s s' k Fca Fle Fal Ffi Fbd Hn) x w Hx Hgx) as Hcx.
       destruct (Nat.eq_dec x j) as [->|Hxj]; [|rewrite Fcur; auto].
       exfalso. apply (DirtyAt_not_needs_cur p s' k); auto. apply DF; auto.
       rewrite Hsubs2. eapply wf_src_sub; eauto. rewrite R1. apply in_tracked_of. eauto.
-    + intros Hn x w Hx Hmx. rewrite Frk in Hx.
-      pose proof (R4 (needs_clean_mono s s' k Fca Fle Fal Ffi Fmi Fpo Fbd Fbf Hn) x w Hx Hmx) as Hxc.
+    + intros Hn x w Hx Hmx Hgx. rewrite Frk in Hx. rewrite Hg' in Hgx.
+      pose proof (R4 (needs_clean_mono s s' k Fca Fle Fal Ffi Fmi Fpo Fbd Fbf Hn) x w Hx Hmx Hgx) as Hxc.
       destruct (nstate_eqb (st (getn s' x)) Clean) eqn:En; [apply nstate_eqb_eq; auto|].
       apply nstate_eqb_neq in En. exfalso.
       assert (Hks : In k (subs (getn s' x))).
@@ -233,17 +242,17 @@ Proof.
       - intros ->. auto.
       - intros Hd. apply Hkd. eapply dep_trans; eauto. }
     split.
-    { intros x w Hx. rewrite Ek in Hx. unfold GraphInvariant.cur. rewrite (Hsame x w Hx). apply (F1 x w Hx). }
+    { intros x w Hx Hgx. rewrite Ek in Hx. rewrite (dead_node p s s' x (Hsame x w Hx)) in Hgx. unfold GraphInvariant.cur. rewrite (Hsame x w Hx). apply (F1 x w Hx Hgx). }
     split.
-    { intros x w Hx Hm. rewrite Ek in Hx. rewrite (Hsame x w Hx). apply (F2 x w Hx Hm). }
+    { intros x w Hx Hm Hgx. rewrite Ek in Hx. rewrite (dead_node p s s' x (Hsame x w Hx)) in Hgx. rewrite (Hsame x w Hx). apply (F2 x w Hx Hm Hgx). }
     rewrite Ek. auto 10.
 Qed.
 
 Lemma Inv_notify j v s :
-  Inv0 s -> sigb j = true ->
+  Inv0 s -> sigb j = true -> dead s j = false ->
   Inv0 (notify_sig p j (updn j (fun n => set_sval n v) s)).
 Proof.
-  intros I Hsj. apply (Inv_write [] 0 j v s I Hsj). intros k [].
+  intros I Hsj Hlive. apply (Inv_write [] 0 j v s I Hsj Hlive). intros k [].
 Qed.
 
 
@@ -252,13 +261,13 @@ Lemma ctx_ok_top : ctx_ok [] top_ctx.
 Proof. unfold ctx_ok, top_ctx; cbn. auto. Qed.
 
 Lemma Inv_read n s s' v :
-  Inv0 s -> n < length p -> effb n = false ->
+  Inv0 s -> n < length p -> effb n = false -> dead s n = false ->
   read_top p n s = (s', v) ->
   Inv0 s' /\ PullRel p (S n) [] None s s' /\
   (memob n = true -> st (getn s' n) = Clean /\ cache (getn s' n) = Some v) /\
   (sigb n = true -> v = sval (getn s' n)).
 Proof.
-  intros I Hn He Hr. unfold read_top, read_any in Hr.
+  intros I Hn He Hgn Hr. unfold read_top, read_any in Hr.
   destruct (snd (lvl p (N p)) true top_ctx n s) as [s1 x] eqn:E. inversion Hr; subst s' v. clear Hr.
   destruct (lvl_spec p wfp (N p)) as [_ HR].
   assert (Hcd : CtxDep p top_ctx n) by (intros w Hw; discriminate).
@@ -266,17 +275,18 @@ Proof.
     as (I1 & _ & P1 & Hm & Hs & _).
   split; [apply Inv_emit; eapply Inv_nil; eauto|].
   split; [eapply PullRel_trans; [exact P1|apply PullRel_emit]|].
-  rewrite !getn_emit. auto.
+  rewrite !getn_emit. split; [intros Hmn; apply Hm; auto|intros Hsn; apply Hs; auto].
 Qed.
 
 (* ---------------------------------------------------------------- consistency of a Clean memo *)
 (* the whole tracked cone of the memo is current: every tracked entry of every last-run log in
    it shows the source's present value (for a source memo with a coarse comparator: a value the
-   comparator does not tell from the present one); memo sources are themselves consistent *)
+   comparator does not tell from the present one); memo sources are themselves consistent; a
+   source that has been disposed since is exempt (disposal is not a change) *)
 Inductive ConsistentM (s : state) : nat -> Prop :=
 | cons_memo j :
     memob j = true -> cache (getn s j) <> None ->
-    (forall x vx, In (x, vx, true) (rlog (getn s j)) ->
+    (forall x vx, In (x, vx, true) (rlog (getn s j)) -> dead s x = false ->
                   eqv p x (cur s x) vx /\ (memob x = true -> ConsistentM s x)) ->
     ConsistentM s j.
 
@@ -324,17 +334,17 @@ Qed.
    a Clean memo with a consistent cone, or is the signal's current value: no glitch *)
 Theorem read_in_run_consistent m c j s stk t s' v :
   Inv stk t s -> ctx_ok stk c -> TopOK c s -> j < t -> j < length p -> effb j = false ->
-  CtxDep p c j ->
+  CtxDep p c j -> dead s j = false ->
   read_any p m c j s = (s', v) ->
   Inv stk t s' /\
   (memob j = true -> cache (getn s' j) = Some v /\ ConsistentM s' j) /\
   (sigb j = true -> v = sval (getn s' j)).
 Proof.
-  intros I C T Hjt Hjl He Hcd Hr. unfold read_any in Hr.
+  intros I C T Hjt Hjl He Hcd Hgj Hr. unfold read_any in Hr.
   destruct (lvl_spec p wfp (N p)) as [_ HR].
   destruct (HR m c j s stk t s' v Hjl Hjt He Hcd I C T Hr) as (I' & _ & _ & Hm & Hs & _).
-  split; auto. split; auto.
-  intros Hmj. destruct (Hm Hmj) as [Hc Hca]. split; auto.
+  split; auto. split; [|intros Hsj; apply Hs; auto].
+  intros Hmj. destruct (Hm Hmj Hgj) as [Hc Hca]. split; auto.
   apply (clean_consistent_stk stk t s' I' j Hjt Hmj Hc).
 Qed.
 
